@@ -316,6 +316,12 @@ def _coalesce_runs_in_paragraph(paragraph: Paragraph):
             i += 1
             continue
 
+        # Only merge runs that are immediate XML siblings; anything in between
+        # (w:ins, w:del, comment anchors, bookmarks, hyperlinks) must keep its position.
+        if current_run._r.getnext() is not next_run._r:
+            i += 1
+            continue
+
         if _are_runs_identical(current_run, next_run):
             # Merge content
             # We must move children nodes manually to preserve w:br, w:tab, etc.
